@@ -504,18 +504,19 @@ func (d *decider) tickedResult(tc tcase, r core.CaseResult) {
 	// 1. bounded progress after the close was observed
 	switch t.Class {
 	case "loop", "tail":
-		if t.Capped || t.After > int64(t.TPI+1) || t.HostAfter > int64(t.TPI+1) {
+		if (t.Capped && (t.After > t.Cap || t.HostAfter > t.Cap)) || t.After > int64(t.TPI+1) || t.HostAfter > int64(t.TPI+1) {
 			d.violate("no-exit-check:"+t.Family+":"+eng, group, pt,
 				fmt.Sprintf("%s on %s: %d ticks (%d host-function rounds) after the tick that observed IsClosed()==true (ticks per iteration %d, bound %d); harness stopped the guest=%v; cause=%s moment=%s",
 					t.Label, eng, t.After, t.HostAfter, t.TPI, t.TPI+1, t.Capped, cause, momentS), wit())
 		}
 	case "recursion":
-		if t.Capped {
+		if t.Capped && (t.After > t.Cap || t.HostAfter > t.Cap) {
 			d.violate("no-exit-check:"+t.Family+":"+eng, group, pt,
 				fmt.Sprintf("%s on %s: %d further ticks after close without exit error or stack overflow (the cycle does not grow a stack and has no exit check); cause=%s moment=%s", t.Label, eng, t.After, cause, momentS), wit())
 		}
 	case "hostrec":
-		if t.Capped {
+		// positive evidence only: the guest made more than Cap further ticks / host entries after closed was observed
+		if t.Capped && (t.After > t.Cap || t.HostAfter > t.Cap) {
 			d.violate("no-closed-check-at-nested-call-entry:"+t.Family+":"+eng, group, pt,
 				fmt.Sprintf("%s on %s: guest->host->guest recursion continued %d levels after the module was observed closed: api.Function.Call on the closed module keeps entering the guest; cause=%s moment=%s", t.Label, eng, t.After, cause, momentS), wit())
 		}
@@ -525,6 +526,10 @@ func (d *decider) tickedResult(tc tcase, r core.CaseResult) {
 			fmt.Sprintf("%s on %s: a guest call made by a host function after the module was observed closed returned %v (want exit error %#x)", t.Label, eng, t.HostBad, t.WantCode), wit())
 	}
 	if t.Capped {
+		if t.After <= t.Cap && t.HostAfter <= t.Cap {
+			// stopped by a safety net without evidence that the guest went on after the close: no verdict
+			c.Inconclusive("harness-stopped-guest-without-evidence")
+		}
 		return // the guest was stopped by the harness: its error is the harness' own
 	}
 	// 2. the returned error
